@@ -141,6 +141,35 @@ async fn run_transition(seed: u64, sequential: bool, limit: u32, n_old: u32, n_n
     r
 }
 
+/// C06 for a Multi: 2-3 listeners (sequential futures executors) of different speeds; every one of them must have processed
+/// every accepted event when `close()` returns.  Returns one event log per listener (in the format of the `close` sub).
+macro_rules! mclose_kind { ($fname:ident, $ty:ty) => {
+    async fn $fname(n_listeners: usize, n_events: u32, delays: Vec<u64>, limit: u32) -> Vec<Vec<String>> {
+        let multi = Arc::new(<$ty>::new("vh-mclose"));
+        let log = Arc::new(Mutex::new(Vec::<(usize, String)>::new()));   // (listener or usize::MAX for everybody, line)
+        for l in 0..n_listeners {
+            let (lg, lg2, d) = (log.clone(), log.clone(), delays[l]);
+            multi.spawn_futures_executor(limit, Duration::ZERO, format!("listener{l}"),
+                move |s| s.map(move |v| { let (lg, v) = (lg.clone(), *v); lg.lock().unwrap().push((l, format!("call 0 yielded {v}")));
+                                          async move { if d > 0 { tokio::time::sleep(Duration::from_millis(d)).await; } lg.lock().unwrap().push((l, format!("call 0 finished {v}"))); } }),
+                move |_| { let lg = lg2.clone(); async move { lg.lock().unwrap().push((l, "call 0 callback".into())); } }).await.expect("spawn");
+        }
+        for i in 0..n_events { assert!(multi.send(10 + i).is_ok()); log.lock().unwrap().push((usize::MAX, format!("call 0 accepted {}", 10 + i))); tokio::time::sleep(Duration::from_millis(1)).await; }
+        log.lock().unwrap().push((usize::MAX, "call 0 closecalled".into()));
+        let ok = multi.close(Duration::ZERO).await;
+        log.lock().unwrap().push((usize::MAX, "call 0 closereturned".into()));
+        assert!(ok, "close() answered false with an unbounded timeout");
+        tokio::time::sleep(Duration::from_millis(500)).await;
+        let lg = log.lock().unwrap().clone();
+        (0..n_listeners).map(|l| lg.iter().filter(|(w, _)| *w == l || *w == usize::MAX).map(|(_, s)| s.clone()).collect()).collect()
+    }
+} }
+mclose_kind!(mclose_arc_atomic, MultiAtomicArc<u32, 64, 4, NONE>);
+mclose_kind!(mclose_arc_fullsync, MultiFullSyncArc<u32, 64, 4, NONE>);
+mclose_kind!(mclose_arc_crossbeam, MultiCrossbeamArc<u32, 64, 4, NONE>);
+mclose_kind!(mclose_ogre_atomic, MultiAtomicOgreArc<u32, 64, 4, NONE>);
+mclose_kind!(mclose_ogre_fullsync, MultiFullSyncOgreArc<u32, 64, 4, NONE>);
+
 fn runtime(multi: bool) -> tokio::runtime::Runtime {
     if multi { tokio::runtime::Builder::new_multi_thread().worker_threads(4).enable_all().build().unwrap() }
     else { tokio::runtime::Builder::new_current_thread().enable_all().start_paused(true).build().unwrap() }
@@ -157,6 +186,46 @@ fn main() {
     let mut out = TraceOut::new(&a.get("trace", ""));
     let mut rep = Report::new(&format!("exec/{sub}"));
     const VARIANTS: [&str; 4] = ["futfallible", "fut", "fallible", "plain"];
+    if sub == "mclose" {
+        const KINDS: [&str; 5] = ["arc_atomic", "arc_fullsync", "arc_crossbeam", "ogre_atomic", "ogre_fullsync"];
+        for i in 0..runs {
+            let seed = if a.kv.contains_key("seedx") { a.num("seedx", 0) } else { seed0.wrapping_mul(1_000_003).wrapping_add(i) };
+            let mut rng = Rng::new(seed ^ 0x3C);
+            let kind = KINDS[rng.below(5) as usize];
+            let nl = rng.range(2, 3) as usize;
+            let ne = rng.range(1, 12) as u32;
+            let delays: Vec<u64> = (0..nl).map(|_| [0, 0, 3, 10][rng.below(4) as usize]).collect();
+            let rt = runtime(multi);
+            let logs = rt.block_on(async { match kind {
+                "arc_atomic" => mclose_arc_atomic(nl, ne, delays.clone(), 1).await, "arc_fullsync" => mclose_arc_fullsync(nl, ne, delays.clone(), 1).await,
+                "arc_crossbeam" => mclose_arc_crossbeam(nl, ne, delays.clone(), 1).await, "ogre_atomic" => mclose_ogre_atomic(nl, ne, delays.clone(), 1).await,
+                _ => mclose_ogre_fullsync(nl, ne, delays.clone(), 1).await } });
+            drop(rt);
+            for (l, trace) in logs.iter().enumerate() {
+                let mut viol: Vec<(String, String)> = vec![];
+                let closed_at = trace.iter().position(|x| x == "call 0 closereturned").unwrap_or(trace.len());
+                for v in (0..ne).map(|k| 10 + k) {
+                    match trace.iter().position(|x| *x == format!("call 0 finished {v}")) {
+                        Some(p) if p < closed_at => {}
+                        _ => viol.push(("close_before_processed".into(), format!("Multi {kind}, {nl} listeners with per-item delays {delays:?} ms, sequential executors: close() returned before listener #{l} had processed accepted event {v} (it processed {} of {ne})", trace[..closed_at].iter().filter(|x| x.starts_with("call 0 finished")).count()))),
+                    }
+                }
+                let cbs = trace.iter().filter(|x| *x == "call 0 callback").count();
+                if cbs != 1 { viol.push(("close_callback_count".into(), format!("Multi {kind}: the close callback of listener #{l} ran {cbs} times"))); }
+                rep.add_run(trace, ne > 1 && delays.iter().any(|d| *d > 0), &format!("mclose/{kind}/l{nl}"), "Completed");
+                out.write_run(&format!("cfg model=exec futures=1 limit=1 seed={seed} run={i} listener={l}"), trace);
+                viol.truncate(2);
+                for (k, d) in viol {
+                    let header = vec![format!("cmd exec sub=mclose runs=1 seedx={seed}"), format!("violation {k}: {d}")];
+                    let p = write_replay(&replay_dir, &format!("{pid}-exec-mclose-seed{seed}-l{l}-{k}"), &header, trace);
+                    rep.violations.push(Violation { run: i, seed, kind: k, detail: d, replay: p });
+                }
+            }
+        }
+        out.finish();
+        rep.print();
+        return
+    }
     if sub == "transition" {
         for i in 0..runs {
             let seed = if a.kv.contains_key("seedx") { a.num("seedx", 0) } else { seed0.wrapping_mul(1_000_003).wrapping_add(i) };
